@@ -21,7 +21,7 @@
    (PTake) and writes each path line (PWrite); nobody else writes to stdout.
 
    The walker is abstracted to "any idle worker may take any file not yet handed out" (envelope: the
-   property must not depend on the traversal order).  A block is a sequence of tokens; Len[f] = 0 means
+   property must not depend on the traversal order).  A block is a sequence of tokens; len[f] = 0 means
    the file produced no output (no match).
 
    UseLock / ClearBuf / SepByWriter / UseChannel = TRUE is the real design; setting one of them to
@@ -62,7 +62,7 @@ vars == <<len, hasSep, todo, pc, cur, buf, wpos, lock, printed, out, matched, se
 
 RECURSIVE BlockUpTo(_, _)
 BlockUpTo(f, n) == IF n = 0 THEN <<>> ELSE Append(BlockUpTo(f, n - 1), Tok(f, n))
-Block(f) == BlockUpTo(f, IF FilesMode THEN 2 ELSE len[f])      \* a path line: path, terminator
+Block(f) == BlockUpTo(f, IF FilesMode THEN 2 ELSE len[f])      \* --files: a path line = path, terminator
 
 (* A block order is a sequence of distinct files. *)
 
